@@ -31,7 +31,7 @@ pub fn status_str(s: &PolytopeStatus) -> String {
 /// operations that do not consult the solver)
 pub fn rand_system(rng: &mut Rng, tiny: bool) -> Polytope {
     let n = 1 + rng.below(4);
-    let class = rng.below(if tiny { 11 } else { 10 });
+    let class = rng.below(if tiny { 12 } else { 11 });
     let mut rows: Vec<(Vec<f64>, f64)> = Vec::new();
     let unit = |j: usize, s: f64| -> Vec<f64> { (0..n).map(|k| if k == j { s } else { 0.0 }).collect() };
     match class {
@@ -115,6 +115,31 @@ pub fn rand_system(rng: &mut Rng, tiny: bool) -> Polytope {
                     1 => rows.push((unit(j, -1.0), -(lo as f64))),
                     _ => rows.push((unit(j, 1.0), -(lo as f64))),
                 }
+            }
+        }
+        10 | 11 if !tiny || class == 11 => {
+            // far from the origin: oblique integer rows around a centre with coordinates of size 1e5..1e6, every row
+            // leaves the centre a slack of at least 40 (in units of its 1-norm): non-empty by a wide margin, but a
+            // solver vertex is accurate to ~1e-8 in raw residuals only
+            let c: Vec<f64> = (0..n)
+                .map(|_| {
+                    let v = (100_000 + rng.below(900_000)) as f64;
+                    if rng.chance(1, 2) { v } else { -v }
+                })
+                .collect();
+            let m = n + 1 + rng.below(n + 2);
+            for i in 0..m {
+                let mut a: Vec<f64> = (0..n).map(|_| rng.range(-25, 25) as f64).collect();
+                if i < n {
+                    // make sure every axis is bounded from one side at least
+                    a[i] = if rng.chance(1, 2) { 1.0 + rng.below(25) as f64 } else { -1.0 - rng.below(25) as f64 };
+                }
+                if a.iter().all(|v| *v == 0.0) {
+                    a[0] = 1.0;
+                }
+                let l1: f64 = a.iter().map(|v| v.abs()).sum();
+                let ac: f64 = a.iter().zip(c.iter()).map(|(x, y)| x * y).sum();
+                rows.push((a, ac + l1 * (40 + rng.below(60)) as f64));
             }
         }
         10 => {
